@@ -44,7 +44,7 @@ PROPS["C14"] = {
     "go": [("internal/app", "^TestVerifC14$"), ("internal/app", "^TestVerifC01$")],
     "level": "proof",
     "components": ["MysyncModel/Select.lean (getMostPriorityNode, getMostDesirableNode with fuel, filterOutNodeFromPositions)"],
-    "trusted": ["T8 float64 lags modelled as Int seconds (the code only compares and subtracts; harness lags are whole seconds)",
+    "trusted": ["T8 float64 lags (seconds) modelled as Int milliseconds (the code only compares and subtracts; harness lags and bounds have at most three decimal places, incl. fractional values around every threshold)",
                 "T6 go-mysql Contain/Equal modelled (see C13)"],
     "rule": "(a) the pure functions: all lists of 0-2 (thorough 0-3) candidates over 4 sets x 4 lags around the bound x 3 priorities x 3 bounds, each with and without a from-host; random lists of 0-5 over 9 sets (chains and incomparable), 7 lags incl. unknown=99999999, priorities 0-3, bounds {0,1,60,100}. distinct = distinct (list, bound, from); non-trivial = at least two candidates; (b) on the 1 500 real performSwitchover runs of the C01 harness (all request kinds incl. a request taken up again after the recorded master already moved): the promoted host is never the host the request moves away from",
     "assumptions": ["bound >= 0 (a negative priority_choice_max_lag makes the Go recursion non-terminating; the property excludes it)"],
@@ -75,7 +75,7 @@ PROPS["C17"] = {
     "go": [("internal/app", "^TestVerifC17$")],
     "level": "proof",
     "components": ["MysyncModel/App/Offline.lean (repairSlaveOfflineMode, repairMasterOfflineMode, the three offline filters, getAvailabilityZone, the pass accumulator, the broken-replica rate limiter)"],
-    "trusted": ["T4 fake MySQL semantics for offline_mode and startup-time statements", "T8 lags/durations in whole seconds; floor(100*x/total) modelled by Int division"],
+    "trusted": ["T4 fake MySQL semantics for offline_mode and startup-time statements", "T8 lags (float seconds in the code) carried as Int milliseconds, thresholds scaled alike; floor(100*x/total) modelled by Int division"],
     "rule": "random scenarios over 6 replicas in 3 zones x 14 percentages x 4 separators x 8 lag values around both thresholds x offline/online x broken x 5 resetup-status cases x 4 last-shutdown ages x failing statements; half call the inner function host by host with one shared pending map (exact action comparison), half run the whole real loop in Go map order (order-free monitors: eligibility, exact per-zone count allowed by the accumulating cap). distinct = distinct record; non-trivial = at least one action",
     "assumptions": ["virtual time does not advance inside one pass (fake servers answer instantly)"],
     "min_lines": 2000,
@@ -275,7 +275,7 @@ PROPS["C15"] = {
 
 PROPS["C03"] = {
     "facts": ["NewZookeeper"],
-    "lean": ["MysyncProofs.C03"],
+    "lean": ["MysyncProofs.C03", "MysyncProofs.C03Timing"],
     "go": [("internal/dcs", "^TestVerifC15$"), ("internal/app", "^TestVerifC05$"),
            # the two lock re-confirmations inside the switchover are observed on the real procedure (monitors C03:promotion-without-both-lock-reconfirmations, C03:lock-not-reconfirmed-after-the-freeze)
            ("internal/app", "^TestVerifC01$")],
@@ -301,17 +301,18 @@ _SIM_TRUSTED = ["T4 fake MySQL semantics incl. semi-sync acknowledgement rule an
 
 PROPS["C02"] = {
     "facts": ["App.Run", "App.connectDCS", "App.newDBCluster"],
-    "lean": ["MysyncProofs.C02", "MysyncProofs.C02Safety"],
+    "lean": ["MysyncProofs.C02", "MysyncProofs.C02Safety", "MysyncProofs.C02Fault"],
     "go": [("internal/app", "^TestVerifSim$")],
     "level": "proof",
     "components": _SIM_COMPONENTS + ["MysyncProofs/C02.lean composes C04 (a,b), C12 and C01 into no_acked_loss_at_promotion",
-                                      "MysyncModel/Proto/Safety.lean: protocol-level state machine (commit / replicate / failover with the enabling conditions the component properties establish); MysyncProofs/C02Safety.lean: induction over histories"],
+                                      "MysyncModel/Proto/Safety.lean: protocol-level state machine (commit / replicate / failover with the enabling conditions the component properties establish); MysyncProofs/C02Safety.lean: induction over histories",
+                                      "MysyncModel/Proto/SafetyFault.lean: the same machine WITH list changes (evictions of the faulty host, re-admissions) and faults / healings under the single-fault budget; MysyncProofs/C02Fault.lean"],
     "trusted": _SIM_TRUSTED,
     "rule": "fault grid: {crash of a MySQL server, network isolation of a host, death of a mysync process, loss of the coordination service by one host or by all, manual switchover to / from, no fault} x target host (master more often) x injection offset 0-5 s across the tick / health-check cycle x duration {3 s, 20 s, 90 s, until healing} x 2-4 HA nodes x with/without a cascade replica x wait count 1-2 x failover on/off x failover delay {0,10,30 s} x both semi-sync adjustment orders x with/without a lagging replica (asked to take over in a third of the requests); 40 s warm-up, fault, 6 virtual minutes of healing. distinct = distinct run; non-trivial = a fault or a request was injected",
     "assumptions": ["MySQL semi-sync time-out effectively infinite, wait_no_slave ON, AFTER_SYNC (the project's configuration)", "single fault per run (the property's budget)",
-                    "the theorem is stated for a published list that does not change between the acknowledgement and the promotion"],
+                    "Safety.lean: the published list does not change, any quorum-passing set may freeze; SafetyFault.lean: the list changes, at most one host is faulty at a time, the master fails only when every registered host is listed again, a host is admitted to the list only when it has every acknowledged transaction (the code does not enforce that: known finding C04, kernel-checked loss witness without it)"],
     "min_lines": 50,
-    "level_text": "PARTIAL. Proved: every acknowledged transaction is executed by the promoted node (composition of C04, C12, C01 for any list size / counts / sets); over the protocol-level state machine (commits acknowledged under C04's guarantees, replication, failovers admitted by C01 / C12's conditions, regenerated quorum arithmetic, fixed published list) NO history of any length loses an acknowledged transaction, and every acknowledged transaction stays on a set of hosts that meets every quorum (acked_never_lost, acked_meets_every_quorum); the canonical predicate implies a single writable reachable HA node equal to the recorded master and all other reachable HA nodes read-only replicas of it; with two faults the quorum refuses. Decided on the real daemons by simulation: return to the canonical state after healing, acknowledged set on the final master, never two acknowledging nodes in one round, no flip-back of the acknowledging node.",
+    "level_text": "PARTIAL. Proved: every acknowledged transaction is executed by the promoted node (composition of C04, C12, C01 for any list size / counts / sets); over the protocol-level state machine (commits acknowledged under C04's guarantees, replication, failovers admitted by C01 / C12's conditions, regenerated quorum arithmetic, fixed published list) NO history of any length loses an acknowledged transaction, and every acknowledged transaction stays on a set of hosts that meets every quorum (acked_never_lost, acked_meets_every_quorum); the canonical predicate implies a single writable reachable HA node equal to the recorded master and all other reachable HA nodes read-only replicas of it; with two faults the quorum refuses. Decided on the real daemons by simulation: return to the canonical state after healing, acknowledged set on the final master, never two acknowledging nodes in one round, no flip-back of the acknowledging node. With list changes (SafetyFault.lean): under the single-fault budget no history of any length — commits, replication, evictions, re-admissions, failovers, switchovers, faults, healings — loses an acknowledged transaction, and in every converged state every acknowledged transaction is also on a listed replica (acked_never_lost_with_list_changes, acked_on_a_listed_replica_when_converged); without the join guard the machine loses a transaction (witness_loss_without_join_guard).",
     "level_note": "Convergence (fairness of the real loops, time-outs) and the end-to-end statement are NOT a theorem: no composed model of N daemons was built; the simulation explores one schedule per configuration and seed. Trusted: Lean kernel, fakes (T4), harness copy of Run's loop.",
     "technique": "Lean 4 proof of the safety composition + simulation of the real daemons with Lean-evaluated verdict predicates",
 }
